@@ -46,6 +46,8 @@ type FuncContract struct {
 	Lemmas    []Lemma
 	Codec     string
 	CodecDir  string
+	Fuel      int
+	Opaque    map[string]bool
 	Fn        *ssa.Function
 	Set       *Set
 }
@@ -351,6 +353,19 @@ func (fc *FuncContract) clause(word, rest string) error {
 		default:
 			return fmt.Errorf("unknown loop clause %s", parts[1])
 		}
+	case "opaque":
+		for _, n := range splitTop(rest) {
+			if fc.Opaque == nil {
+				fc.Opaque = map[string]bool{}
+			}
+			fc.Opaque[strings.TrimSpace(n)] = true
+		}
+	case "specfuel":
+		n, err := strconv.Atoi(rest)
+		if err != nil {
+			return err
+		}
+		fc.Fuel = n
 	case "codec":
 		f := strings.Fields(rest)
 		if len(f) != 2 {
@@ -408,6 +423,25 @@ type Env struct {
 	Assume  bool
 	guards  []*Term
 	noQuant int
+	// spec function calls: nested ones and those in assumed clauses stay uninterpreted; a top-level call in a goal
+	// is unfolded Fuel levels deep (0 = 1)
+	specDepth int
+	Fuel      int
+	Opaque    map[string]bool
+	// Own: the clause belongs to the contract of the function under verification (definitional axioms are added)
+	Own   bool
+	axOut *[]*Term
+}
+
+func (e *Env) addAxiom(t *Term) {
+	if t.IsTrue() {
+		return
+	}
+	if e.axOut != nil {
+		*e.axOut = append(*e.axOut, t)
+		return
+	}
+	e.St.Assume(t)
 }
 
 func (e *Env) state() *sym.State {
@@ -740,6 +774,16 @@ func (e *Env) binary(n *ast.BinaryExpr) TV {
 			bad("operands of %s have different types (%s vs %s): add a conversion", n.Op, a.T, b.T)
 		}
 	}
+	if n.Op == token.EQL || n.Op == token.NEQ {
+		switch a.V.(type) {
+		case sym.StructV, sym.ArrV, sym.ArrS:
+			eq := e.Fx.EqV(a.V, b.V)
+			if n.Op == token.NEQ {
+				eq = Not(eq)
+			}
+			return TV{V: sym.Scalar{T: eq}, T: types.Typ[types.Bool]}
+		}
+	}
 	r := e.Fx.BinOpV(nil, e.state(), nil, op, a.V, b.V, a.T, b.T)
 	rt := a.T
 	switch n.Op {
@@ -763,12 +807,27 @@ func (e *Env) call(n *ast.CallExpr) TV {
 				bad("unknown spec function %s", sel.Sel.Name)
 			}
 			var args []sym.Value
+			e.specDepth++
 			for i, a := range n.Args {
 				tv := e.concretize(e.eval(a), fn.Params[i].Type())
+				tv = e.deref(tv)
 				tv = e.coerce(tv, fn.Params[i].Type())
 				args = append(args, tv.V)
 			}
-			v := e.Fx.EvalPure(fn, args, e.state())
+			e.specDepth--
+			// The call denotes the uninterpreted application spec.F(args). In the clauses of the function under
+			// verification a top-level call additionally contributes the definitional axiom
+			// spec.F(args) == <body of F unfolded (nested calls per fuel / opaque list)>; clauses of callee contracts
+			// used at call sites stay uninterpreted.
+			v := e.Fx.OpaqueApplySt(e.state(), fn, args)
+			if e.Own && e.specDepth == 0 {
+				fuel := e.Fuel
+				if fuel == 0 {
+					fuel = 1
+				}
+				un := e.Fx.EvalPure(fn, args, e.state(), fuel, e.Opaque)
+				e.addAxiom(e.Fx.EqV(v, un))
+			}
 			var rt types.Type
 			if r := fn.Signature.Results(); r.Len() == 1 {
 				rt = r.At(0).Type()
@@ -827,6 +886,39 @@ func (e *Env) call(n *ast.CallExpr) TV {
 			return TV{V: sym.Scalar{T: BVC(64, uint64(len(v.Elems)))}, T: types.Typ[types.Int]}
 		}
 		bad("len of %T", a.V)
+	case "arr":
+		// arr(x, n): the first n elements of slice/array/string x as an array value
+		a := e.deref(e.eval(n.Args[0]))
+		nt := e.eval(n.Args[1])
+		if nt.C == nil {
+			bad("arr: length must be a constant")
+		}
+		cnt, _ := constant.Int64Val(constant.ToInt(nt.C))
+		var c sym.Content
+		var off *Term
+		var et types.Type = types.Typ[types.Uint8]
+		switch v := a.V.(type) {
+		case sym.SliceV:
+			if v.Obj == nil {
+				bad("arr of nil slice")
+			}
+			arrv := e.Fx.Load(e.state(), sym.PtrV{Nil: False, Obj: v.Obj, Path: v.Path}, nil).(sym.ArrV)
+			c, off = arrv.C, v.Off
+			et = a.T.Underlying().(*types.Slice).Elem()
+		case sym.ArrV:
+			c, off = v.C, BVC(64, 0)
+			et = a.T.Underlying().(*types.Array).Elem()
+		case sym.StrV:
+			c, off = v.C, v.Off
+		default:
+			bad("arr of %T", a.V)
+		}
+		es := make([]*Term, cnt)
+		for i := range es {
+			es[i] = c.Elem(Add(off, BVC(64, uint64(i))))
+		}
+		w, _ := sym.IsByteLike(et)
+		return TV{V: sym.ArrV{EW: w, Len: BVC(64, uint64(cnt)), C: sym.CVec{E: es, W: w}}, T: types.NewArray(et, cnt)}
 	case "has":
 		// has(m, k): key k is present in map m
 		m := e.deref(e.eval(n.Args[0]))
@@ -968,13 +1060,15 @@ func (e *Env) registerQ(iv string, t types.Type, lo, hi *Term, body ast.Expr) {
 	for k, v := range e.Vars {
 		vars[k] = v
 	}
-	snap := &Env{Fx: e.Fx, St: e.St.Clone(), Old: e.Old, Vars: vars, Set: e.Set, InOld: e.InOld, Skol: e.Skol, Owner: e.Owner}
+	snap := &Env{Fx: e.Fx, St: e.St.Clone(), Old: e.Old, Vars: vars, Set: e.Set, InOld: e.InOld, Skol: e.Skol, Owner: e.Owner, Assume: true, Fuel: e.Fuel, Opaque: e.Opaque, Own: e.Own}
 	if e.InOld && e.Old != nil {
 		snap.St = e.Old
 	}
 	guards := append([]*Term(nil), e.guards...)
 	e.St.Quants = append(e.St.Quants, &sym.QFact{Inst: func(k *Term) *Term {
 		local := *snap
+		var ax []*Term
+		local.axOut = &ax
 		lv := map[string]TV{}
 		for a, b := range snap.Vars {
 			lv[a] = b
@@ -989,7 +1083,7 @@ func (e *Env) registerQ(iv string, t types.Type, lo, hi *Term, body ast.Expr) {
 		if lo != nil {
 			g = append(g, SLe(lo, k), SLt(k, hi))
 		}
-		return Implies(And(g...), bt)
+		return And(And(ax...), Implies(And(g...), bt))
 	}})
 }
 
@@ -1074,8 +1168,10 @@ func (fc *FuncContract) vars(fx *sym.FnExec, args []sym.Value, ret sym.Value) ma
 			if len(fc.Results) == 1 {
 				nm = fc.Results[0]
 			}
-			vars[nm] = TV{V: ret, T: res.At(0).Type()}
-			vars["result"] = vars[nm]
+			if ret != nil {
+				vars[nm] = TV{V: ret, T: res.At(0).Type()}
+				vars["result"] = vars[nm]
+			}
 		default:
 			if tv, ok := ret.(sym.TupleV); ok {
 				for i := 0; i < res.Len(); i++ {
